@@ -5,6 +5,7 @@
 //!        c03 worker gen <seed> <depth> <from> <n>   (crash-isolated batch of generated programs)
 //!        c03 dump '<source>'             (print the structured MIR dump)
 //!        c03 exec <ret> '<source>' n m c (run main once, print the balance)
+//!        c03 gone '<source>'             (variables whose only writes dead-code elimination removed)
 
 #[path = "../c03/progen.rs"]
 mod progen;
@@ -140,6 +141,18 @@ fn dump(src: &str) -> Result<Vec<roto::verif_hooks::c03::ItemDump>, String> {
         .map_err(|e| format!("{e}"))
 }
 
+/// per item: (variable, label of the block that wrote it) for the variables whose only writes
+/// were removed by dead-code elimination
+type Gone = Vec<(String, Vec<(String, String)>)>;
+
+/// The dump together with the eliminated definitions of the *same* lowering: two lowerings of one
+/// script number the temporaries of a `match` differently (guard chains in hash-set order).
+fn dump_with_gone(src: &str) -> Result<(Vec<roto::verif_hooks::c03::ItemDump>, Gone), String> {
+    let rt = runtime();
+    roto::verif_hooks::c03::dump_with_eliminated(FileTree::test_file("c03.roto", src, 0), &rt)
+        .map_err(|e| format!("{e}"))
+}
+
 fn nums_line(nums: &[u64]) -> String {
     nums.iter().map(|n| n.to_string()).collect::<Vec<_>>().join(" ")
 }
@@ -168,6 +181,9 @@ struct Reject {
     status: String,
     agg: bool,
     arg: bool,
+    /// the variable is written by no block of the item: `def_block` is then the block that
+    /// wrote it before dead-code elimination removed that block (hook `eliminated_definitions`)
+    eliminated: bool,
 }
 
 impl Reject {
@@ -208,6 +224,14 @@ impl Reject {
         }
         if self.def_block.contains("while-condition") {
             return "while-cond-temporaries".into();
+        }
+        if self.eliminated {
+            // a variable whose only definition was removed as dead code is released: the
+            // construct is the one whose (unreachable) block defined it
+            return format!("dead-definition:{}:{}", strip(&self.def_block), self.reason);
+        }
+        if self.def_block.is_empty() {
+            return format!("never-written:{}", self.reason);
         }
         format!("other:{}:{}", strip(&self.def_block), self.reason)
     }
@@ -350,7 +374,7 @@ struct Checked {
 
 /// Dump every item of `src` and run the verified checker on each.
 fn check_script(drv: &mut Driver, src: &str) -> Result<Checked, String> {
-    let items = dump(src)?;
+    let (items, gone) = dump_with_gone(src)?;
     let mut out = Checked { items: items.len(), blocks: 0, rejects: vec![], bad: vec![] };
     for it in &items {
         if !it.lowered {
@@ -366,15 +390,32 @@ fn check_script(drv: &mut Driver, src: &str) -> Result<Checked, String> {
                     s.parse::<usize>().ok().and_then(|i| it.labels.get(i).cloned()).unwrap_or_else(|| s.to_string())
                 };
                 let var = w[3].parse::<usize>().ok().and_then(|i| it.vars.get(i).cloned()).unwrap_or_else(|| w[3].to_string());
+                // No block of the item writes the variable (the checker answers with an
+                // out-of-range label): ask the compiler which block wrote it before dead-code
+                // elimination. Guard chains are lowered once per discriminant, also behind an
+                // unguarded arm, so such a variable is typically the temporary of an unreachable
+                // copy of a guard that the frame enclosing the `match` still drops.
+                let known = w[4].parse::<usize>().ok().is_some_and(|i| i < it.labels.len());
+                let (def_block, eliminated) = if known || w[4] == "-" {
+                    (lbl(w[4]), false)
+                } else {
+                    let found = gone.iter().find(|(item, _)| *item == it.name)
+                        .and_then(|(_, defs)| defs.iter().find(|(v, _)| *v == var).map(|(_, l)| l.clone()));
+                    match found {
+                        Some(l) => (l, true),
+                        None => (String::new(), false),
+                    }
+                };
                 out.rejects.push(Reject {
                     item: it.name.clone(),
                     block: lbl(w[1]),
                     reason: w[2].to_string(),
                     var,
-                    def_block: lbl(w[4]),
-                    status: w[5].to_string(),
+                    def_block,
+                    status: if eliminated { format!("{}, only written in a block removed as dead code", w[5]) } else { w[5].to_string() },
                     agg: w.get(6) == Some(&"1"),
                     arg: w.get(7) == Some(&"1"),
+                    eliminated,
                 });
             }
             _ => out.bad.push(format!("{}: {ans}", it.name)),
@@ -736,6 +777,9 @@ fn table() -> Vec<(&'static str, Ret, String)> {
         ("clean-match-scrutinee-return", Ret::U32, f("u32", "match E.B(s, t) { B(q, x) => { if c { return 1; } slen(q) + id(x) }, A(x) => id(x), C => 0 }")),
         ("witness-call-arg", Ret::U32, f("u32", "let b = same(mk(1), if c { return 3 } else { mk(2) }); 3")),
         ("witness-list-literal", Ret::U32, f("u32", "let l = [mk(1), if c { return 3 } else { mk(2) }]; 3")),
+        ("witness-guard-return", Ret::U32, f("u32", "match opt(t, true) { Some(y) if { if c { return 1 } else { mk(n) == y } } => 2, Some(y) => 3, None => 4 }")),
+        // a guard behind an unguarded arm of the same chain: its block is dead code, its temporaries are not
+        ("witness-dead-guard", Ret::U32, f("u32", "match maybe(c, m) { None => 1, _ if s == \"lit1\" => 2, _ => 3 }")),
         ("clean-fstring-accept", Ret::Verdict, format!("{pre}filtermap main({p}) {{ let x = f\"a{{n}}b{{if c {{ accept t }} else {{ m }}}}\"; reject x }}\n")),
         ("clean-list", Ret::ListTk, f("List[Tk]", "let l = [t, mk(1)]; l.push(mk(2)); if c { return l + many(n); } l")),
     ]
@@ -1082,6 +1126,14 @@ fn main() {
             }
             Err(e) => println!("ERROR\n{e}"),
         },
+        Some("gone") => {
+            // the variables whose only writes were removed by dead-code elimination
+            for (item, defs) in dump_with_gone(&args[2]).map(|x| x.1).unwrap_or_default() {
+                for (v, l) in defs {
+                    println!("{item}: {v} written only in {l}");
+                }
+            }
+        }
         Some("emit-lean") => {
             // write the current tree's dumps of the witness scripts as Lean definitions
             let out = &args[2];
